@@ -135,8 +135,41 @@ def file_disagreements(path, pcfg, folder='Grammar'):
     return bad
 
 
+def base_disagreements(path, pcfg, folder='Grammar', skip_brute=False):
+    """('BASE', replacement types, loaded probability) of the loaded base structures whose probability is not the one the
+    base-structure file states (neutral reader): exactly as written for the default run, divided by 1 - P(Markov) under
+    --skip_brute.  A pre-terminal of such a structure does not carry "the base-structure probability times ..."."""
+    import re
+    from . import rulesets as _rs
+    recs = _rs.neutral_value_prob(os.path.join(path, folder, 'grammar.txt'))
+    pm = 0.0
+    for v, pr in recs:
+        if v == 'M':
+            pm = float(pr)
+            break
+    want = {}
+    for v, pr in recs:
+        if skip_brute and 'M' in v:
+            continue
+        reps = []
+        for m in re.finditer(r'([A-Z])([0-9]*)', v):
+            reps.append(m.group(0))
+            if m.group(1) == 'A':
+                reps.append('C' + m.group(2))
+        want.setdefault(tuple(reps), []).append(float(pr) / (1.0 - pm) if skip_brute and pm < 1.0 else float(pr))
+    bad = set()
+    for b in pcfg.base:
+        cands = want.get(tuple(b['replacements']), [])
+        ok = any((c == b['prob']) or abs(c - b['prob']) <= 1e-12 * max(abs(c), abs(b['prob'])) for c in cands)
+        if not ok:
+            bad.add(('BASE', tuple(b['replacements']), b['prob']))
+    return bad
+
+
 def prob_ok(pcfg, pt_item, exact, bad_groups=()):
     if bad_groups and any((t, i) in bad_groups for t, i in pt_item['pt']):
+        return False
+    if bad_groups and ('BASE', tuple(t for t, _ in pt_item['pt']), pt_item['base_prob']) in bad_groups:
         return False
     ref = true_product(pcfg, pt_item)
     got = pt_item['prob']
